@@ -253,9 +253,17 @@ def job_param_pairs(ctx, key):
     pristine child processes (state cached at class or module level and keyed incompletely shows here)."""
     r = rr.by_key(key)
     A0 = dict(r.cfgs[0])
-    for vi, v in enumerate(_variants(r)):
+    pairs = []
+    for v in _variants(r):
         B0 = dict(A0); B0.update(v)
-        vname = ','.join(sorted(v))
+        pairs.append((A0, B0, ','.join(sorted(v))))
+    if r.cls_name in ('EKF', 'ROLEQ') and r.frame == 'NED':
+        # both instances rely on the DEFAULT magnetic reference (computed by the package at construction): only the frame differs
+        import datetime
+        if datetime.datetime.now().hour != 23 or datetime.datetime.now().minute < 55:      # the default depends on today's date
+            pairs.append((dict(frame='NED'), dict(frame='ENU'), 'frame(default reference)'))
+            pairs.append((dict(frame='ENU'), dict(frame='NED'), 'frame(default reference, ENU first)'))
+    for A0, B0, vname in pairs:
         kk = f'filter={key} varied={vname}'
         try:
             solo_a = core.in_fresh_child(_run_cfg, key, A0)
@@ -273,7 +281,7 @@ def job_param_pairs(ctx, key):
         ctx.traces += 8
         ctx.transitions += 8 * 6
         ctx.states += 8
-    ctx.sample({'filter': key, 'base': {k: (x.tolist() if hasattr(x, 'tolist') else x) for k, x in A0.items()}, 'varied': [sorted(v) for v in _variants(r)]})
+    ctx.sample({'filter': key, 'base': {k: (x.tolist() if hasattr(x, 'tolist') else x) for k, x in r.cfgs[0].items()}, 'varied': [p[2] for p in pairs]})
 
 
 QUICK_KEYS = ['Madgwick-MARG', 'Mahony-MARG', 'EKF-MARG', 'EKF-IMU-ENU', 'UKF-IMU', 'AQUA-MARG', 'Fourati-MARG', 'ROLEQ-MARG', 'AngularRate-series', 'Mahony-IMU']
